@@ -55,6 +55,11 @@ print(module_global, Thing.attribute, module_global)
 ''',
     b"import a\nimport b\nx=1+2\nclass C(object):pass\ndef f(p,/):\n  pass\n  return None\n",
     b"def g(value_name:int)->int:\n  assert value_name\n  if __debug__:print(1)\n  raise TypeError()\n'x'\ny:int=3\nclass D:\n  z:int=4\n",
+    # the size rule is about BYTES: in latin-1 this module is shorter than its minified form encoded as UTF-8, although the minified text has
+    # fewer characters than the source has bytes (the untouched original must come out)
+    b"# -*- coding: latin-1 -*-\nx='" + b'\xe9' * 30 + b"'\n",
+    # ... and a UTF-8 module that only shrinks by a hair, so that every flag decides on which side of the rule it falls
+    "def f(a):\n return a if 0 in a else'\u00e9\u00e9\u00e9'\n".encode('utf-8'),
 ]
 
 
@@ -298,6 +303,10 @@ def validity_cases(root):
         (['-', single], 'stdin together with a path'),
         ([single, '-'], 'a path together with stdin'),
         (['-', '--in-place'], 'stdin with --in-place'),
+        ([single, '-', '--in-place'], 'stdin after a path with --in-place'),
+        ([f1, f2, '-', '--in-place'], 'stdin after two paths with --in-place'),
+        (['-', single, '--in-place'], 'stdin before a path with --in-place'),
+        ([f1, '-', f2, '--in-place'], 'stdin between two paths with --in-place'),
         ([single, '--in-place', '--output', outp], '--in-place together with --output'),
         ([single, '--remove-class-attribute-annotations', '--no-remove-annotations'], 'class attribute annotations with --no-remove-annotations'),
         ([d, '--in-place', '--remove-class-attribute-annotations', '--no-remove-annotations'], 'invalid annotation flags on a directory'),
